@@ -379,3 +379,10 @@ mod tests {
         assert_eq!(cubic.state.window, window + BASE_DATAGRAM_SIZE);
     }
 }
+
+#[cfg(feature = "__verif-hooks")]
+#[allow(missing_docs, unreachable_pub, dead_code, unused_imports, unused_qualifications)]
+pub mod verif {
+    use super::*;
+    include!(concat!(env!("QUINN_VERIF_HOOKS"), "/proto/congestion/cubic.rs"));
+}
